@@ -22,15 +22,15 @@ EXTRA = {
     'C02': {'lentil/propagate.py': ['propagate_dft', '_dft_alpha', '_mask_shape', '_mask_shift'], 'lentil/fourier.py': ['dft2', '_dft2_matrices', '_dft2_coords'],
             'lentil/wavefront.py': ['Wavefront.field', 'Wavefront.intensity']},
     'C03': {'lentil/extent.py': ['array_extent', 'intersect', 'intersection_slices', 'intersection_shift'], 'lentil/plane.py': ['Plane.shape', 'Plane.mask', 'Plane.multiply', '_plane_slice', 'TiltInterface.multiply', 'Tilt.__init__', 'Plane.fit_tilt', 'Pupil.multiply'], 'lentil/util.py': ['boundary'],
-            'lentil/propagate.py': ['_dft_alpha', 'propagate_dft'], 'lentil/field.py': ['Field.__mul__', 'reduce', '_reduce', '_disjoint', '_merge', 'insert'],
+            'lentil/propagate.py': ['_dft_alpha', 'propagate_dft'], 'lentil/field.py': ['Field.shape', 'Field.size', 'Field.__init__', 'Field.__mul__', 'reduce', '_reduce', '_disjoint', '_merge', 'insert'],
             'lentil/fourier.py': ['dft2', '_dft2_matrices', '_dft2_coords'], 'lentil/wavefront.py': ['Wavefront.intensity', 'Wavefront.field', 'Wavefront.__mul__']},
-    'C04': {'lentil/field.py': ['Field.__mul__', 'Field.shift'], 'lentil/plane.py': ['Plane.fit_tilt', 'Plane.ptt_vector', 'Tilt.shift', 'Tilt.__init__', 'TiltInterface.multiply', 'DispersiveTilt.shift']},
+    'C04': {'lentil/field.py': ['Field.shape', 'Field.size', 'Field.__init__', 'Field.__mul__', 'Field.shift'], 'lentil/plane.py': ['Plane.fit_tilt', 'Plane.ptt_vector', 'Tilt.shift', 'Tilt.__init__', 'TiltInterface.multiply', 'DispersiveTilt.shift']},
     'C05': {'lentil/plane.py': ['Plane.shape', 'Plane.multiply', 'Plane.mask', 'Plane.__init__'], 'lentil/wavefront.py': ['Wavefront.__init__', 'Wavefront.field', 'Wavefront.shape', 'Wavefront.intensity'],
             'lentil/util.py': ['normalize_power'], 'lentil/propagate.py': ['_fft2', 'propagate_fft', 'propagate_dft'], 'lentil/fourier.py': ['dft2', '_dft2_matrices']},
-    'C06': {'lentil/field.py': ['Field.__mul__', 'Field._mul_scalar', 'Field._mul_array', '_mul_broadcast', 'insert', 'merge', '_merge', '_merge_shape', '_merge_slices',
+    'C06': {'lentil/field.py': ['Field.shape', 'Field.size', 'Field.__init__', 'Field.__mul__', 'Field._mul_scalar', 'Field._mul_array', '_mul_broadcast', 'insert', 'merge', '_merge', '_merge_shape', '_merge_slices',
                                 '_merge_offset', 'boundary', 'overlap', 'reduce', '_reduce', '_disjoint']},
     'C07': {'lentil/extent.py': ['array_extent', 'intersect', 'intersection_slices', 'intersection_shift'], 'lentil/plane.py': ['Plane.shape', 'Plane.mask', 'Plane.amplitude', 'Plane.opd', 'Plane.multiply', '_mul_pixelscale', 'Pupil.multiply', 'Image.multiply', 'Plane.__init__', '_plane_slice', 'TiltInterface.multiply', 'Tilt.__init__'],
-            'lentil/helper.py': ['boundary_slice', 'slice_offset'], 'lentil/util.py': ['boundary'], 'lentil/field.py': ['Field.__mul__', 'insert', 'reduce', '_reduce', '_disjoint', '_merge'], 'lentil/wavefront.py': ['Wavefront.field', 'Wavefront.intensity', 'Wavefront.insert', 'Wavefront.__mul__']},
+            'lentil/helper.py': ['boundary_slice', 'slice_offset'], 'lentil/util.py': ['boundary'], 'lentil/field.py': ['Field.shape', 'Field.size', 'Field.__init__', 'Field.__mul__', 'insert', 'reduce', '_reduce', '_disjoint', '_merge'], 'lentil/wavefront.py': ['Wavefront.field', 'Wavefront.intensity', 'Wavefront.insert', 'Wavefront.__mul__']},
     'C08': {'lentil/plane.py': ['Image.multiply', 'TiltInterface.multiply', 'Plane.__init__', 'Plane.multiply'], 'lentil/ptype.py': ['ptype']},
     'C09': {'lentil/propagate.py': ['propagate_fft', '_fft_shape', '_fft2', 'scratch_shape', '_has_tilt'], 'lentil/util.py': ['pad']},
     'C11': {'lentil/zernike.py': ['zernike', 'R', 'zernike_index', 'zernike_coordinates'], 'lentil/util.py': ['centroid'], 'lentil/helper.py': ['mesh']},
@@ -68,6 +68,7 @@ def normalised(fn):
             and isinstance(fn.body[0].value.value, str):
         fn.body = fn.body[1:] or [ast.Pass()]
     args = {a.arg for a in fn.args.args + fn.args.kwonlyargs + fn.args.posonlyargs}
+    if fn.name == '_module_level_': return ast.unparse(fn)
     ren = {}
     for n in _locals_of(fn):
         if n not in args: ren[n] = f'v{len(ren)}'
@@ -77,9 +78,17 @@ def normalised(fn):
     return ast.unparse(fn)       # canonical source text (run with /venv/bin/python, as the checks are)
 
 def functions_in(src):
-    """{qualified name: FunctionDef} for module-level functions and methods of module-level classes"""
+    """{qualified name: FunctionDef} for module-level functions and methods of module-level classes; the pseudo entry
+    '<module>' wraps every module-level statement that is not a def, class, import or docstring (tables, constants,
+    caches, rebindings such as `insert = _fast_insert`)"""
     out = {}
-    for node in ast.parse(src).body:
+    tree = ast.parse(src)
+    rest = [n for n in tree.body if not isinstance(n, (ast.FunctionDef, ast.AsyncFunctionDef, ast.ClassDef, ast.Import, ast.ImportFrom))
+            and not (isinstance(n, ast.Expr) and isinstance(getattr(n, 'value', None), ast.Constant))]
+    wrapper = ast.parse('def _module_level_():\n    pass').body[0]
+    wrapper.body = rest or [ast.Pass()]
+    out['<module>'] = ast.fix_missing_locations(wrapper)
+    for node in tree.body:
         if isinstance(node, (ast.FunctionDef, ast.AsyncFunctionDef)): out[node.name] = node
         elif isinstance(node, ast.ClassDef):
             for m in node.body:
@@ -132,6 +141,8 @@ def derive():
                     for f1 in (fn if isinstance(fn, list) else [fn]):
                         if f1.lineno <= b and f1.end_lineno >= a: want.setdefault(path, set()).add(name)
         for path, names in EXTRA.get(p['id'], {}).items(): want.setdefault(path, set()).update(names)
+        for path in list(want): want[path].add('<module>')
+        if p['id'] == 'C08': want.setdefault('lentil/__init__.py', set()).add('<module>')
         res[p['id']] = {k: sorted(v) for k, v in sorted(want.items())}
     return res
 
